@@ -18,7 +18,8 @@ THEOREMS = ["C11_exec_vs_sem", "C11_run_script", "C11_machine_is_fold", "C11_fue
             "C11_continue", "C11_continue_for", "C11_limit", "C11_limit_for", "C11_call_named", "C11_call_named_tokens",
             "C11_statement_call", "C11_statement_call_tokens", "C11_signals_stop_at_call", "C11_defaults", "C11_return_immediate",
             "C11_return_from_loops", "C11_return_keeps_result", "C11_scope", "C11_scope_statement_call", "C11_local_writes_only",
-            "C11_args_in_caller_scope", "C11_call_in_caller_scope", "C11_statement_call_in_caller_scope"]
+            "C11_args_in_caller_scope", "C11_call_in_caller_scope", "C11_statement_call_in_caller_scope",
+            "C11_call_value_from_callee_frame", "C11_call_without_result"]
 DRIVERS = ["script", "core"]
 RULE = ("programs of 2..7 statements over: leaf commands (notes c d e f g a b with lengths, rests, o/l/v/q state commands), PRINT of 1..3 "
         "integer expressions, INT declarations with and without initialiser, assignments, X++ / X--, IF with and without ELSE (conditions = "
